@@ -2,6 +2,8 @@
 
 package license
 
+import vs "github.com/emitter-io/emitter/internal/verifspec"
+
 // Contracts for license parsing (properties C20, C09): "parsing any license string yields a license or an error"
 // is a safety contract - no panic for any input - on Parse and the per-version parsers. The base64 / snappy /
 // reflection codecs underneath are outside the verified code: their results are unconstrained here (any byte
@@ -12,6 +14,39 @@ func post_parseV1(data string, res0 *V1, res1 error) bool { return res1 != nil |
 
 //@ verify Parse post=post_Parse props=C20,C09
 func post_Parse(data string, res0 License, res1 error) bool { return res1 != nil || res0 != nil }
+
+//@ verify parseV2 post=post_parseV2 props=C20,C09
+func post_parseV2(data string, res0 *V2, res1 error) bool { return res1 != nil || res0 != nil }
+
+//@ verify parseV3 post=post_parseV3 props=C20,C09
+func post_parseV3(data string, res0 *V3, res1 error) bool { return res1 != nil || res0 != nil }
+
+// Parse's dispatch (C20: "a generated license parses back ..."): every String() ends in ":<version>"; Parse hands
+// the text WITHOUT exactly those two characters - nothing more, nothing less - to the parser of that version, and a
+// text without such a suffix to the version-1 parser as it is. strings.HasSuffix is assumed to be what its
+// documentation says; the three parsers are unfolded (their base64 / snappy / codec calls are recorded), and the
+// text a parser was given is read off its first call, base64's DecodeString.
+//@ assume strings.HasSuffix iface post=post_HasSuffix
+func post_HasSuffix(s, suffix string, res0 bool) bool {
+	return res0 == (len(s) >= len(suffix) && vs.Forall(0, len(suffix), func(i int) bool { return s[len(s)-len(suffix)+i] == suffix[i] }))
+}
+
+//@ assume (*encoding/base64.Encoding).DecodeString iface
+
+//@ verify Parse as=dispatch pre=pre_Parse_dispatch post=post_Parse_dispatch props=C20
+func pre_Parse_dispatch(data string) bool { return len(data) >= 5 }
+func specEndsWith(data string, v byte) bool { return data[len(data)-2] == ':' && data[len(data)-1] == v }
+func post_Parse_dispatch(data string, res0 License, res1 error) bool {
+	d := vs.TraceFind("DecodeString")
+	if d < 0 || vs.TraceCount("DecodeString") != 1 {
+		return false
+	}
+	arg := vs.TraceArg[string](d, 1)
+	if specEndsWith(data, '1') || specEndsWith(data, '2') || specEndsWith(data, '3') {
+		return len(arg) == len(data)-2 && vs.Forall(0, len(arg), func(i int) bool { return arg[i] == data[i] })
+	}
+	return arg == data
+}
 
 func pre_V1(l *V1) bool { return l != nil }
 
